@@ -183,6 +183,20 @@ impl Cfg {
     }
 }
 
+pub fn roman(i: i64) -> String {
+    if i <= 0 || i >= 4000 {
+        return i.to_string();
+    }
+    let mut n = i;
+    let mut o = String::new();
+    for (v, r) in [(1000, "m"), (900, "cm"), (500, "d"), (400, "cd"), (100, "c"), (90, "xc"), (50, "l"), (40, "xl"), (10, "x"), (9, "ix"), (5, "v"), (4, "iv"), (1, "i")] {
+        while n >= v {
+            o.push_str(r);
+            n -= v;
+        }
+    }
+    o
+}
 /// A decorator family parameterised by strings (C16).
 #[derive(Clone, Debug)]
 pub struct CustomDeco {
@@ -235,6 +249,11 @@ impl TextDecorator for CustomDeco {
         self.s[14].clone()
     }
     fn ordered_item_prefix(&self, i: i64) -> String {
+        if self.s[15] == "ROMAN" {
+            // a numbering whose width is not monotone in the number (implementation-only cases:
+            // the model's custom family numbers in decimal)
+            return roman(i) + ". ";
+        }
         format!("{}{}", i, self.s[15])
     }
     fn make_subblock_decorator(&self) -> Self {
